@@ -449,6 +449,7 @@ func simC16(c *sim.Ctx) {
 		if len(sent) >= 3 {
 			c.Probe("three_or_more_packets")
 		}
+		c.State(c.Fingerprint()) // the sequence of controller choices = the interleaving
 		b.Finish()
 	})
 }
